@@ -414,6 +414,16 @@ func (engC16) Gen(r *Rng, s *Script, idx int, tier string) {
 			}
 			steps = append(steps, st)
 		}
+		if r.Chance(1, 3) {
+			// the owner goes on building after its renders (some of which may have been
+			// aborted by a writer fault) and renders once more: nothing a render left
+			// running may still be looking at the table
+			for i := r.Range(1, 3); i > 0; i-- {
+				steps = append(steps, genBuildStep(r, m, level, &ctr))
+			}
+			steps = append(steps, genRenderStep(r, 0))
+			s.Config["build_after_render"] = 1
+		}
 		s.Tasks = append(s.Tasks, steps)
 		total += len(steps) * 12
 	}
